@@ -272,7 +272,7 @@ def reg_save_tiff(R):
 def load_expected(raw, dst):
     """voxel held after NDArrayImageStack(imgs, dtype=dst) for a raw voxel v (documented rescaling):
        unsigned -> float : v / UINT_MAX[raw]   (converted to the target first, quotient rounded to the target float format)
-       float -> unsigned : v * UINT_MAX[target] (product in the raw float format), then converted
+       float -> unsigned : v * UINT_MAX[target] (product in double precision), then converted
        otherwise         : plain conversion"""
     if dst is None:
         return lambda v: v
@@ -281,8 +281,8 @@ def load_expected(raw, dst):
         c, r, f = CAST(raw, dst), RND(dst), rq(1, UMAX[raw.name])
         return lambda v: r(f * c(v))
     if is_u(dst) and is_f(raw):
-        c, r, f = CAST(raw, dst), RND(raw), rq(UMAX[dst.name])
-        return lambda v: c(r(f * v))
+        c, f = CAST("float64", dst), rq(UMAX[dst.name])
+        return lambda v: c(f * v)  # product in DOUBLE precision (exact over the reals), then converted
     c = CAST(raw, dst)
     return lambda v: c(v)
 
